@@ -7,6 +7,6 @@ require (
 	github.com/evanw/esbuild v0.0.0
 )
 
-require golang.org/x/sys v0.0.0-20220715151400-c0bba94af5f8 // indirect
+require golang.org/x/sys v0.0.0-20220715151400-c0bba94af5f8
 
 replace github.com/evanw/esbuild => /repo
